@@ -8,7 +8,7 @@ use vstd::std_specs::iter::IteratorSpec;
 use vstd::std_specs::hash::*;
 use vstd::std_specs::cmp::PartialEqSpec;
 use std::alloc::Allocator;
-use std::collections::{HashMap, HashSet};
+use std::collections::{HashMap, HashSet, VecDeque};
 use std::collections::hash_map::Iter;
 verus! {
 broadcast use {vstd::laws_eq::group_laws_eq, vstd::std_specs::hash::group_hash_axioms, trusted_keys::group_trusted_keys, trusted_byvalue_iter::group_byvalue_iter};
